@@ -50,6 +50,7 @@ impl Model {
     fn reads_of(&self, l: &Loc) -> Vec<&'static str> { match l { Loc::I(..) => reads(self.op(l).unwrap()), Loc::E(h, t) => if self.cond.contains(&(*h, *t)) { vec!["g"] } else { vec![] }, _ => vec![] } }
 }
 
+fn deep() -> bool { std::env::var("VERIF_TIER").map(|t| t == "thorough").unwrap_or(false) } // thorough tier: wider bounds
 fn main() {
     std::panic::set_hook(Box::new(|_| {}));
     let mut found = 0usize;
@@ -78,8 +79,8 @@ fn main() {
         for cc in 0..total { for bits in 0u32..(1u32 << (nb * nb)) {
             counter += 1;
             // thin out deterministically: all 1-block, 1 in 11 of 2-block, 1 in 4001 of 3-block functions
-            if nb == 2 && counter % 11 != 0 { continue; }
-            if nb == 3 && counter % 4001 != 0 { continue; }
+            if nb == 2 && counter % (if deep() { 2 } else { 11 }) != 0 { continue; }
+            if nb == 3 && counter % (if deep() { 307 } else { 4001 }) != 0 { continue; }
             let shift = (evals_fn % 2) as usize; evals_fn += 1;
             let mut cfg = ControlFlowGraph::new();
             let mut model = Model { blocks: vec![], edges: BTreeSet::new(), cond: BTreeSet::new() };
